@@ -711,6 +711,9 @@ def collect_rebound_attrs(trees) -> set:
     return out
 
 
+_MODULE_ROOTS = {"os", "heapq", "bisect", "math", "itertools", "json", "csv", "multiprocessing", "queue", "threading", "time", "sys"}
+
+
 class _AliasFields(ast.NodeTransformer):
     def visit_FunctionDef(self, node):
         self.generic_visit(node)
@@ -719,8 +722,6 @@ class _AliasFields(ast.NodeTransformer):
         a = node.args
         params = {x.arg for x in a.posonlyargs + a.args + a.kwonlyargs} | ({a.vararg.arg} if a.vararg else set()) \
             | ({a.kwarg.arg} if a.kwarg else set())
-        if not params:
-            return node
         for _round in range(4):                     # `pool = self.pool; q = pool._queue`: one alias may stand on another
             if not self._one_pass(node, params):
                 break
@@ -745,8 +746,12 @@ class _AliasFields(ast.NodeTransformer):
             while isinstance(e, ast.Attribute):
                 path.append(e.attr)
                 e = e.value
-            return bool(path) and isinstance(e, ast.Name) and e.id in params and stores.get(e.id, 0) == 0 \
-                and not any(x in REBOUND_ATTRS or x in own_attr_stores for x in path)
+            if not (bool(path) and isinstance(e, ast.Name) and stores.get(e.id, 0) == 0 and e.id not in declared
+                    and not any(x in REBOUND_ATTRS or x in own_attr_stores for x in path)):
+                return False
+            # the root is a parameter that is never re-bound, or a class of the package / an imported module named by a global
+            # (`FunRunner.WORK_QUEUE.put`, `heapq.heappush`): a name the function itself never binds
+            return e.id in params or e.id[:1].isupper() or e.id in _MODULE_ROOTS
 
         def ok_name(nm) -> bool:
             return stores.get(nm) == 1 and nm not in params and nm not in declared
@@ -810,10 +815,300 @@ class _SubstName(ast.NodeTransformer):
         return node
 
 
+# N29: a flag parameter that no call in the package passes.  `def iter_nodes(self, *, reverse=False)` with every call site written
+# `x.iter_nodes()` behaves, for the calls the package makes, like the function with `reverse` replaced by False: the parameter is
+# substituted by its default and tests on the constant are folded.  A package-wide fact like REBOUND_ATTRS (closed world: what a
+# caller outside the package does with the new parameter is not what the properties are about).  Only bool / None defaults, only
+# functions that are never referenced other than by being called, never for dunder methods.
+NEVER_PASSED: set = set()
+
+
+FLAG_FIELDS: dict = {}      # attribute name -> constant: a field that is only ever assigned, in constructors, from a never-passed flag
+
+
+def _enclosing_functions(tree):
+    """yield (function node, class name or None) for every def, with its directly enclosing class"""
+    def go(node, cls):
+        for ch in ast.iter_child_nodes(node):
+            if isinstance(ch, ast.ClassDef):
+                yield from go(ch, ch.name)
+            elif isinstance(ch, (ast.FunctionDef, ast.AsyncFunctionDef)):
+                yield ch, cls
+                yield from go(ch, None)
+            else:
+                yield from go(ch, cls)
+    yield from go(tree, None)
+
+
+def _call_key(fn, cls):
+    """the name(s) under which calls reach this function: its own name; a constructor is reached as ClassName(...) and as
+    super().__init__(...)"""
+    if fn.name == "__init__" and cls:
+        return [cls, "__init__"]
+    if fn.name == "__call__":
+        return ["__call__"]             # reached as obj(...): any call at all that passes the keyword counts
+    if fn.name.startswith("__") and fn.name.endswith("__"):
+        return []
+    return [fn.name]
+
+
+def collect_never_passed(trees) -> set:
+    global FLAG_FIELDS
+    cand = {}            # call name -> {param: default constant}   (keyword-only parameters with a bool / None default)
+    clash = set()
+    for t in trees:
+        for fn, cls in _enclosing_functions(t):
+            # only keyword-only flags: a positional-or-keyword parameter with a default (`arg_sort(..., reverse=False)`,
+            # `rotate(front_to_back=True)`) is part of the documented behaviour the properties quantify over, whether or not the
+            # package itself passes it
+            for arg, d in zip(fn.args.kwonlyargs, fn.args.kw_defaults):
+                if isinstance(d, ast.Constant) and (isinstance(d.value, bool) or d.value is None):
+                    for key in _call_key(fn, cls):
+                        slot = cand.setdefault(key, {})
+                        if arg.arg in slot and slot[arg.arg] is not d.value:
+                            clash.add((key, arg.arg))
+                        slot[arg.arg] = d.value
+    passed = set(clash)
+    forwards = []        # ((callee name, param), (caller key, caller param)): passed on unchanged from a flag of the caller
+    referenced = set()
+    for t in trees:
+        call_funcs = set()
+        for fn, cls in list(_enclosing_functions(t)) + [(t, None)]:
+            own = {}
+            if not isinstance(fn, ast.Module):
+                for key in _call_key(fn, cls):
+                    own.update({p: (key, v) for p, v in cand.get(key, {}).items()})
+            body_nodes = []
+            stack = list(ast.iter_child_nodes(fn))
+            while stack:
+                n = stack.pop()
+                if isinstance(n, (ast.FunctionDef, ast.AsyncFunctionDef, ast.ClassDef)):
+                    continue
+                body_nodes.append(n)
+                stack.extend(ast.iter_child_nodes(n))
+            for n in body_nodes:
+                if not isinstance(n, ast.Call):
+                    continue
+                call_funcs.add(id(n.func))
+                nm = n.func.id if isinstance(n.func, ast.Name) else n.func.attr if isinstance(n.func, ast.Attribute) else None
+                if "__call__" in cand and nm != "__call__":
+                    for k in n.keywords:
+                        if k.arg in cand["__call__"] and not (isinstance(k.value, ast.Constant) and k.value.value is cand["__call__"][k.arg]):
+                            passed.add(("__call__", k.arg))
+                        # (a `**kw` on an arbitrary callable is not taken as passing the flag of some object's __call__: explicit
+                        # keywords only; stated as an assumption in DESIGN.md, N29)
+                if nm not in cand:
+                    continue
+                if nm == "__call__" and isinstance(n.func, ast.Attribute) and isinstance(n.func.value, ast.Call) \
+                        and isinstance(n.func.value.func, ast.Name) and n.func.value.func.id == "super":
+                    continue          # super().__call__(...) of a metaclass: type.__call__, not the __call__ of an object of the package
+                if any(k.arg is None for k in n.keywords):
+                    passed |= {(nm, p_) for p_ in cand[nm]}
+                for k in n.keywords:
+                    if k.arg in cand[nm]:
+                        dflt = cand[nm][k.arg]
+                        if isinstance(k.value, ast.Constant) and k.value.value is dflt:
+                            continue
+                        if isinstance(k.value, ast.Name) and k.value.id in own and own[k.value.id][1] is dflt:
+                            forwards.append(((nm, k.arg), (own[k.value.id][0], k.value.id)))
+                            continue
+                        passed.add((nm, k.arg))
+        for n in ast.walk(t):
+            if isinstance(n, ast.Attribute) and isinstance(n.ctx, ast.Load) and id(n) not in call_funcs and n.attr in cand:
+                referenced.add(n.attr)
+            if isinstance(n, ast.Name) and isinstance(n.ctx, ast.Load) and id(n) not in call_funcs and n.id in cand \
+                    and not n.id[:1].isupper():
+                referenced.add(n.id)
+    for _ in range(4):
+        for callee, caller in forwards:
+            if caller in passed and callee not in passed:
+                passed.add(callee)
+    out = set()
+    for nm, slot in cand.items():
+        if nm in referenced:
+            continue                       # handed around as a value: who calls it, and how, is not known
+        for param in slot:
+            if (nm, param) not in passed:
+                out.add((nm, param))
+    # a constructor reached as ClassName(...) must also be clean under the name "__init__" (super().__init__(flag=...))
+    out = {(nm, p_) for nm, p_ in out if nm == "__init__" or not nm[:1].isupper() or ("__init__", p_) in out or p_ not in cand.get("__init__", {})}
+    # fields that only ever hold such a flag
+    stores = {}
+    for t in trees:
+        for fn, cls in _enclosing_functions(t):
+            for n in ast.walk(fn):
+                if isinstance(n, ast.Attribute) and isinstance(n.ctx, (ast.Store, ast.Del)):
+                    par_val = None
+                    stores.setdefault(n.attr, []).append((fn, cls, n))
+    FLAG_FIELDS = {}
+    parents = {}
+    for t in trees:
+        for node in ast.walk(t):
+            for ch in ast.iter_child_nodes(node):
+                parents[id(ch)] = node
+    for attr, lst in stores.items():
+        vals = set()
+        ok = True
+        for fn, cls, n in lst:
+            st = parents.get(id(n))
+            if not (fn.name == "__init__" and cls and isinstance(st, ast.Assign) and len(st.targets) == 1 and st.targets[0] is n
+                    and isinstance(st.value, ast.Name) and (cls, st.value.id) in out and st.value.id in cand.get(cls, {})):
+                ok = False
+                break
+            vals.add(cand[cls][st.value.id])
+        if ok and len(vals) == 1:
+            FLAG_FIELDS[attr] = next(iter(vals))
+    return out
+
+
+class _FoldConst(ast.NodeTransformer):
+    def visit_UnaryOp(self, node):
+        self.generic_visit(node)
+        if isinstance(node.op, ast.Not) and isinstance(node.operand, ast.Constant):
+            return ast.copy_location(ast.Constant(not node.operand.value), node)
+        return node
+
+    def visit_BoolOp(self, node):
+        self.generic_visit(node)
+        is_and = isinstance(node.op, ast.And)
+        vals = []
+        for v in node.values:
+            if isinstance(v, ast.Constant) and isinstance(v.value, (bool, type(None))):
+                if bool(v.value) == is_and:
+                    continue                               # neutral element
+                return ast.copy_location(ast.Constant(v.value), node) if not vals else \
+                    ast.copy_location(ast.BoolOp(op=node.op, values=vals + [v]), node)
+            vals.append(v)
+        if not vals:
+            return ast.copy_location(ast.Constant(is_and), node)
+        if len(vals) == 1:
+            return vals[0]
+        node.values = vals
+        return node
+
+    def visit_Compare(self, node):
+        self.generic_visit(node)
+        if len(node.ops) == 1 and isinstance(node.left, ast.Constant) and isinstance(node.comparators[0], ast.Constant) \
+                and isinstance(node.ops[0], (ast.Is, ast.IsNot)) and (node.left.value is None or isinstance(node.left.value, bool)) \
+                and (node.comparators[0].value is None or isinstance(node.comparators[0].value, bool)):
+            r = node.left.value is node.comparators[0].value
+            return ast.copy_location(ast.Constant(r if isinstance(node.ops[0], ast.Is) else not r), node)
+        return node
+
+    def visit_IfExp(self, node):
+        self.generic_visit(node)
+        if isinstance(node.test, ast.Constant):
+            return node.body if node.test.value else node.orelse
+        return node
+
+    def visit_If(self, node):
+        self.generic_visit(node)
+        if isinstance(node.test, ast.Constant):
+            keep = node.body if node.test.value else node.orelse
+            return keep if keep else None
+        return node
+
+
+class _SpecialiseDefaults(ast.NodeTransformer):
+    def __init__(self):
+        self.cls = []
+
+    def visit_ClassDef(self, node):
+        self.cls.append(node.name)
+        self.generic_visit(node)
+        self.cls.pop()
+        return node
+
+    def visit_FunctionDef(self, node):
+        cls = self.cls[-1] if self.cls else None
+        self.cls.append(None)
+        self.generic_visit(node)
+        self.cls.pop()
+        todo = {}
+        a = node.args
+        key = cls if node.name == "__init__" and cls else node.name
+        for arg, d in [(x, d) for x, d in zip(a.kwonlyargs, a.kw_defaults) if d is not None]:
+            if (key, arg.arg) in NEVER_PASSED and isinstance(d, ast.Constant):
+                todo[arg.arg] = d.value
+        me = (a.posonlyargs + a.args)[0].arg if cls and (a.posonlyargs + a.args) else None
+        if FLAG_FIELDS and me and node.name != "__init__":
+            class Fld(ast.NodeTransformer):
+                def visit_Attribute(self, n):
+                    self.generic_visit(n)
+                    if isinstance(n.ctx, ast.Load) and n.attr in FLAG_FIELDS and isinstance(n.value, ast.Name) and n.value.id == me:
+                        return ast.copy_location(ast.Constant(FLAG_FIELDS[n.attr]), n)
+                    return n
+            if any(isinstance(n, ast.Attribute) and n.attr in FLAG_FIELDS for n in ast.walk(node)):
+                node.body = [Fld().visit(st) for st in node.body]
+                nb = []
+                for st in node.body:
+                    r = _FoldConst().visit(st)
+                    if r is None:
+                        continue
+                    nb += r if isinstance(r, list) else [r]
+                node.body = nb or [ast.copy_location(ast.Pass(), node)]
+        if not todo:
+            return node
+        # the idiom `if p is None: p = <fresh object>` (elif/else: what to do with a caller's object): with p never passed only the
+        # first arm exists
+        for pname in [k for k, v in todo.items() if v is None]:
+            for i, st in enumerate(node.body):
+                uses = any(isinstance(n, ast.Name) and n.id == pname for n in ast.walk(st))
+                if not uses:
+                    continue
+                if isinstance(st, ast.If) and isinstance(st.test, ast.Compare) and len(st.test.ops) == 1 \
+                        and isinstance(st.test.ops[0], ast.Is) and isinstance(st.test.left, ast.Name) and st.test.left.id == pname \
+                        and isinstance(st.test.comparators[0], ast.Constant) and st.test.comparators[0].value is None \
+                        and any(isinstance(x, ast.Assign) and len(x.targets) == 1 and isinstance(x.targets[0], ast.Name)
+                                and x.targets[0].id == pname for x in st.body) \
+                        and not any(isinstance(n, ast.Name) and n.id == pname and isinstance(n.ctx, ast.Load) for x in st.body for n in ast.walk(x)):
+                    node.body[i:i + 1] = st.body
+                    todo.pop(pname, None)
+                break
+        for n in ast.walk(node):
+            if isinstance(n, ast.Name) and n.id in todo and isinstance(n.ctx, (ast.Store, ast.Del)):
+                todo.pop(n.id, None)
+            if isinstance(n, (ast.Global, ast.Nonlocal)):
+                for x in n.names:
+                    todo.pop(x, None)
+        if not todo:
+            return node
+
+        class Sub(ast.NodeTransformer):
+            def visit_Name(self, n):
+                if n.id in todo and isinstance(n.ctx, ast.Load):
+                    return ast.copy_location(ast.Constant(todo[n.id]), n)
+                return n
+
+            def visit_Call(self, n):
+                self.generic_visit(n)
+                nm = n.func.id if isinstance(n.func, ast.Name) else n.func.attr if isinstance(n.func, ast.Attribute) else None
+                # a flag handed on to a callee that is itself specialised on it: the keyword says nothing any more
+                n.keywords = [k for k in n.keywords if not (k.arg is not None and (nm, k.arg) in NEVER_PASSED
+                                                            and isinstance(k.value, ast.Constant))]
+                return n
+
+            def visit_FunctionDef(self, n):          # nested defs may shadow: leave them alone
+                return n
+            visit_Lambda = visit_AsyncFunctionDef = visit_FunctionDef
+        node.body = [Sub().visit(st) for st in node.body]
+        new_body = []
+        for st in node.body:
+            r = _FoldConst().visit(st)
+            if r is None:
+                continue
+            new_body += r if isinstance(r, list) else [r]
+        node.body = new_body or [ast.copy_location(ast.Pass(), node)]
+        return node
+    visit_AsyncFunctionDef = visit_FunctionDef
+
+
 def normalise(tree: ast.Module) -> ast.Module:
     roots = _inert_roots(tree)
     if roots:
         tree = _DropInert(roots).visit(tree)
+    if NEVER_PASSED or FLAG_FIELDS:
+        tree = _SpecialiseDefaults().visit(tree)
     tree = _AliasFields().visit(tree)
     tree = _N().visit(tree)
     ast.fix_missing_locations(tree)
